@@ -386,8 +386,7 @@ End Bound.
 
 Section Fixed.
 Context {A : Type}.
-Variables (data : list A) (mx : option Z) (W : Z).
-Hypothesis HW : 1 <= W.
+Context (data : list A) (mx : option Z) (W : Z) (HW : 1 <= W).
 Local Notation v := (vis data mx).
 
 (** State after [i] reads. *)
@@ -461,9 +460,7 @@ End Fixed.
 
 Section Overlap.
 Context {A : Type}.
-Variables (data : list A) (mx : option Z) (W H : Z).
-Hypothesis HH : 1 <= H.
-Hypothesis HHW : H < W.
+Context (data : list A) (mx : option Z) (W H : Z) (HH : 1 <= H) (HHW : H < W).
 Local Notation v := (vis data mx).
 
 (** Block [i], with the existence condition in elementary form. *)
@@ -623,9 +620,7 @@ Qed.
 
 Section OverlapClosed.
 Context {A : Type}.
-Variables (v : list A) (W H : Z).
-Hypothesis HH : 1 <= H.
-Hypothesis HHW : H < W.
+Context (v : list A) (W H : Z) (HH : 1 <= H) (HHW : H < W).
 
 Lemma overlap_block_some k :
   0 <= k ->
